@@ -67,6 +67,16 @@ theorem after_lt (cfg : Cfg) (prog : List BP) (st st' : WSt) (mv : Move)
       have := moveTo_le cfg _ _ _ _ h
       have e : wμ cfg (.at (.recv ch g) left) = 2 * left + 2 := by simp [wμ]
       rw [e]; omega
+    | lock m f =>
+      simp only [after] at h
+      have := moveTo_le cfg _ _ _ _ h
+      have e : wμ cfg (.at (.lock m f) left) = 2 * left + 2 := by simp [wμ]
+      rw [e]; omega
+    | join ok =>
+      simp only [after] at h
+      have := moveTo_le cfg _ _ _ _ h
+      have e : wμ cfg (.at (.join ok) left) = 2 * left + 2 := by simp [wμ]
+      rw [e]; omega
 
 theorem step_cancelled (cfg : Cfg) (s s' : St) (a : Act) (hc : s.cancelled = true)
     (h : step cfg s a = some s') : s'.cancelled = true := by
@@ -265,6 +275,8 @@ theorem after_mem (cfg : Cfg) (c : Bool) (prog : List BP) (st : WSt) (mv : Move)
     | sleep b => exact moveTo_mem _ _ _ _ _ h
     | send ch g => exact moveTo_mem _ _ _ _ _ h
     | recv ch g => exact moveTo_mem _ _ _ _ _ h
+    | lock m f => exact moveTo_mem _ _ _ _ _ h
+    | join ok => exact moveTo_mem _ _ _ _ _ h
 
 theorem countP_set_le {α} (p : α → Bool) (l : List α) (i : Nat) (a : α) (hi : i < l.length)
     (h : p a = true → p l[i] = true) : List.countP p (l.set i a) ≤ List.countP p l := by
@@ -355,6 +367,8 @@ theorem opEffect_err (cfg : Cfg) (lvl : Chan → Nat) (p : BP) (hp : p ≠ .errS
     split
     · simp only [dec]; split <;> omega
     · exact Nat.le_refl _
+  | lock m f => simp [opEffect]
+  | join ok => simp [opEffect]
 
 theorem inv_step (cfg : Cfg) (progs : List (List BP)) (hs : safeTable cfg progs = true)
     (s s' : St) (a : Act) (hinv : Inv cfg progs s) (h : step cfg s a = some s') : Inv cfg progs s' := by
@@ -562,6 +576,8 @@ theorem progress (cfg : Cfg) (progs : List (List BP)) (hs : safeTable cfg progs 
         | sleep b => simpa [BP.guarded, opEnabled] using hg
         | send ch g => simp only [BP.guarded] at hg; simp [opEnabled, hg]
         | recv ch g => simp only [BP.guarded] at hg; simp [opEnabled, hg]
+        | lock m f => simpa [BP.guarded, opEnabled] using hg
+        | join ok => simpa [BP.guarded, opEnabled] using hg
         | errSend =>
           simp only [opEnabled, decide_eq_true_eq]
           rcases hinv.err with he | he
